@@ -417,10 +417,14 @@ class GriffeLoader:
                     prev_member = obj.get_member(new_member.name)
                     with suppress(AliasResolutionError, CyclicAliasError):
                         if prev_member.is_module:
-                            if prev_member.is_alias:
-                                prev_member = prev_member.final_target
-                            if alias.final_target is prev_member:
+                            prev_module = prev_member.final_target if prev_member.is_alias else prev_member
+                            if alias.final_target is prev_module:
                                 # Alias named after the module it targets: skip to avoid cyclic aliases.
+                                # The name is still re-bound at this line: remember it,
+                                # so that a wildcard imported higher in the module doesn't take precedence.
+                                if prev_member.is_alias:
+                                    prev_member.alias_lineno = alias_lineno
+                                    prev_member.alias_endlineno = alias_endlineno
                                 continue
 
                 # Everything went right (supposedly), we add the alias as a member of the current object.
